@@ -65,6 +65,18 @@ impl<'a, S: UtxoStore> InputSelector<'a, S> {
         }
     }
 
+    // The search space is padded with loosely matching utxos, so the address and
+    // ref constraints of the query have to be enforced on what was fetched.
+    fn meets_hard_constraints(utxo: &Utxo, criteria: &CanonicalQuery) -> bool {
+        if let Some(address) = &criteria.address {
+            if &utxo.address != address {
+                return false;
+            }
+        }
+
+        criteria.refs.is_empty() || criteria.refs.contains(&utxo.r#ref)
+    }
+
     fn pick_from_set(utxos: UtxoSet, criteria: &CanonicalQuery) -> UtxoSet {
         let target = criteria
             .min_amount
@@ -98,6 +110,7 @@ impl<'a, S: UtxoStore> InputSelector<'a, S> {
         // abstract it away. Maybe as a different call in the UtxoStore trait.
         let utxos = utxos
             .into_iter()
+            .filter(|x| Self::meets_hard_constraints(x, criteria))
             .filter(|x| x.assets.is_only_naked())
             .collect();
 
@@ -121,6 +134,11 @@ impl<'a, S: UtxoStore> InputSelector<'a, S> {
             .collect();
 
         let utxos = self.store.fetch_utxos(refs).await?;
+
+        let utxos = utxos
+            .into_iter()
+            .filter(|x| Self::meets_hard_constraints(x, criteria))
+            .collect();
 
         let matched = Self::pick_from_set(utxos, criteria);
 
